@@ -1606,8 +1606,14 @@ func (cc *ClientConn) writeHeaders(streamID uint32, endStream bool, maxFrameSize
 	first := true // first frame written (HEADERS is first, then CONTINUATION)
 	for len(hdrs) > 0 && cc.werr == nil {
 		chunk := hdrs
-		if len(chunk) > maxFrameSize {
-			chunk = chunk[:maxFrameSize]
+		max := maxFrameSize
+		if first && !cc.t.HeaderPriority.IsZero() && max > 5 {
+			// The 5 bytes of priority fields are part of the HEADERS
+			// frame payload, which must not exceed the peer's limit.
+			max -= 5
+		}
+		if len(chunk) > max {
+			chunk = chunk[:max]
 		}
 		hdrs = hdrs[len(chunk):]
 		endHeaders := len(hdrs) == 0
